@@ -12,6 +12,8 @@ package shimagent
 //vsym:model (*golang.org/x/crypto/ssh.Certificate).Type mwCertType
 //vsym:model github.com/theparanoids/ysshra/keyid.Unmarshal mwKeyIDUnmarshal
 //vsym:model go.uber.org/multierr.Append mwMultierrAppend
+//vsym:model github.com/theparanoids/ysshra/agent/ssh/connection.GetConn mwGetConn
+//vsym:model golang.org/x/crypto/ssh/agent.NewClient mwNewClient
 //vsym:assume sha256 is modelled as an injective padding of the (at most 31-byte) model blobs: collision-freeness; certificates and keys are model objects with injective 2-byte blobs, ssh.ParsePublicKey / (*Certificate).Marshal are the registry lookup between blob and object; keyid.Unmarshal is summarised as a per-certificate flag (decodes or not, C05); time.Now is an arbitrary instant; the underlying agent is a stateful protocol-level model that may fail at a chosen call; sort.Slice is the identity permutation
 
 import (
@@ -21,8 +23,9 @@ import (
 	"io"
 	"math"
 	"net"
+	"os"
+	"path/filepath"
 	"strings"
-	"sync"
 	"time"
 
 	"github.com/theparanoids/ysshra/keyid"
@@ -95,7 +98,16 @@ func nwShift(v uint64) uint64 {
 	return uint64(r)
 }
 
-const nwKeyID = `{"prins":["u"],"transID":"t","reqUser":"u","reqIP":"1.1.1.1","reqHost":"h","isFirefighter":false,"isHWKey":false,"isHeadless":false,"isNonce":false,"usage":0,"touchPolicy":1,"ver":1}`
+// nwKeyIDText: natively, the real KeyID text with the attributes of mwKeyIDTemplate
+func nwKeyIDText() string {
+	k := mwKeyIDTemplate
+	k.Principals, k.ReqUser, k.ReqIP, k.ReqHost = []string{"u"}, "u", "1.1.1.1", "h"
+	s, err := k.Marshal()
+	if err != nil {
+		panic("nwKeyIDText: " + err.Error())
+	}
+	return s
+}
 
 // mwPlainKey: the public key with the given id (a model object, or a real key natively).
 func mwPlainKey(id int) ssh.PublicKey {
@@ -163,7 +175,7 @@ func mwNewCert(keyID int, va, vb uint64, decodes bool) *ssh.Certificate {
 		c = &ssh.Certificate{Key: mwPlainKey(keyID), ValidAfter: nwShift(va), ValidBefore: nwShift(vb), KeyId: "not a key id", CertType: ssh.UserCert,
 			Nonce: []byte{byte(len(mwCerts))}, Serial: uint64(len(mwCerts))}
 		if decodes {
-			c.KeyId = nwKeyID
+			c.KeyId = nwKeyIDText()
 		}
 		if mwPadKeyID {
 			c.KeyId += "\n"
@@ -228,9 +240,14 @@ func mwParsePublicKey(in []byte) (ssh.PublicKey, error) {
 	return nil, errors.New("model: unknown key blob")
 }
 
+// mwKeyIDTemplate: what a decoding KeyID says (a harness may make the
+// attributes arbitrary; by default a plain never-touch KeyID)
+var mwKeyIDTemplate = keyid.KeyID{Version: 1, TransID: "t", TouchPolicy: keyid.NeverTouch}
+
 func mwKeyIDUnmarshal(s string) (*keyid.KeyID, error) {
 	if strings.TrimSpace(s) == "Y" {
-		return &keyid.KeyID{Version: 1, TransID: "t", TouchPolicy: keyid.NeverTouch}, nil
+		k := mwKeyIDTemplate
+		return &k, nil
 	}
 	return nil, errors.New("model: not a YSSHCA KeyID")
 }
@@ -254,6 +271,17 @@ type mwUpstream struct {
 	log     []string
 	signReq []mwSignReq
 	added   []agent.AddedKey
+	nconns  []net.Conn // natively: the server side of the connections the shim opened
+}
+
+// dropNative: natively a transport failure is a dropped connection (the
+// x/crypto client then reports "agent: client error: EOF")
+func (u *mwUpstream) dropNative() {
+	if vIsNative() && strings.HasPrefix(u.failText, "agent: client error") {
+		for _, c := range u.nconns {
+			c.Close()
+		}
+	}
 }
 
 type mwSignReq struct {
@@ -381,6 +409,7 @@ func (u *mwUpstream) Signers() ([]ssh.Signer, error) {
 
 func (u *mwUpstream) Lock(p []byte) error {
 	if u.fault("Lock") {
+		u.dropNative()
 		if u.failText != "" {
 			return errors.New(u.failText)
 		}
@@ -396,6 +425,7 @@ func (u *mwUpstream) Lock(p []byte) error {
 
 func (u *mwUpstream) Unlock(p []byte) error {
 	if u.fault("Unlock") {
+		u.dropNative()
 		if u.failText != "" {
 			return errors.New(u.failText)
 		}
@@ -440,46 +470,90 @@ func mwUpstreamConn(up *mwUpstream) io.ReadWriteCloser {
 	return &mwConn{}
 }
 
-func mwNewServer(up *mwUpstream, noUpstream bool) *Server {
-	s := &Server{
-		conn:                   &mwConn{},
-		agent:                  up,
-		certs:                  map[hashcode]*certificate{},
-		noUpstreamSSHCACert:    noUpstream,
-		upstreamSSHCACertCache: map[hashcode]struct{}{},
-		pubKeyComp: func(x, y ssh.PublicKey) bool {
-			return string(x.Marshal()) == string(y.Marshal())
-		},
+// mwCurrentUp: the upstream model the next agent client connects to
+var mwCurrentUp *mwUpstream
+
+// mwNetConn: the model connection behind the net.Conn the constructor asks for
+type mwNetConn struct {
+	net.Conn
+	c *mwConn
+}
+
+func (n *mwNetConn) Read(p []byte) (int, error)  { return n.c.Read(p) }
+func (n *mwNetConn) Write(p []byte) (int, error) { return n.c.Write(p) }
+func (n *mwNetConn) Close() error                { return n.c.Close() }
+
+// mwLastConn: the connection of the most recently constructed server
+var mwLastConn *mwConn
+
+// mwNextConn: when set, the connection the next constructed server talks through
+var mwNextConn io.ReadWriteCloser
+
+type mwRWCConn struct {
+	net.Conn
+	c io.ReadWriteCloser
+}
+
+func (n *mwRWCConn) Read(p []byte) (int, error)  { return n.c.Read(p) }
+func (n *mwRWCConn) Write(p []byte) (int, error) { return n.c.Write(p) }
+func (n *mwRWCConn) Close() error                { return n.c.Close() }
+
+func mwGetConn(address string) (net.Conn, error) {
+	if mwNextConn != nil {
+		c := mwNextConn
+		mwNextConn = nil
+		return &mwRWCConn{c: c}, nil
 	}
-	for i := range s.conds {
-		s.conds[i] = sync.NewCond(&sync.Mutex{})
+	mwLastConn = &mwConn{}
+	return &mwNetConn{c: mwLastConn}, nil
+}
+func mwNewClient(rw interface {
+	Read([]byte) (int, error)
+	Write([]byte) (int, error)
+}) agent.ExtendedAgent {
+	return mwCurrentUp
+}
+
+// mwNewServer: a shim agent over the upstream model, built by the exported
+// constructor (the harnesses do not depend on the fields of Server).  Under
+// vsym connection.GetConn and agent.NewClient are models; natively the
+// upstream model is served by x/crypto's agent server on a unix socket.
+func mwNewServer(up *mwUpstream, noUpstream bool) *Server {
+	mwCurrentUp = up
+	addr := "/model/agent.sock"
+	if vIsNative() {
+		dir, err := os.MkdirTemp("", "vsym-shim")
+		if err != nil {
+			panic(err)
+		}
+		addr = filepath.Join(dir, "a.sock")
+		l, err := net.Listen("unix", addr)
+		if err != nil {
+			panic(err)
+		}
+		go func() {
+			for {
+				c, err := l.Accept()
+				if err != nil {
+					return
+				}
+				up.nconns = append(up.nconns, c)
+				go agent.ServeAgent(up, c)
+			}
+		}()
+	}
+	calls, log := up.calls, up.log
+	ag, err := New(Option{Address: addr, NoUpstream: noUpstream, PubKeyComp: func(x, y ssh.PublicKey) bool {
+		return string(x.Marshal()) == string(y.Marshal())
+	}})
+	if err != nil {
+		panic("mwNewServer: construction failed: " + err.Error())
+	}
+	up.calls, up.log = calls, log // the constructor's own listing is not part of the scenario
+	s, ok := ag.(*Server)
+	if !ok {
+		panic("mwNewServer: New did not return a *Server")
 	}
 	return s
 }
 
-// mwPutMem places a certificate into the in-memory table respecting the
-// representation invariant: certs[hash(blob)] = {cert, blob, label}.
-func mwPutMem(s *Server, c *ssh.Certificate) {
-	blob := mwCertMarshal(c)
-	s.certs[hash(blob)] = &certificate{c, blob, "mem"}
-}
-
-// mwInv: the representation invariant of the in-memory table.
-func mwInv(s *Server) bool {
-	ok := mwCertsIntact()
-	for h, c := range s.certs {
-		if c == nil || c.Certificate == nil {
-			return false
-		}
-		blob := mwCertMarshal(c.Certificate)
-		if string(c.Blob) != string(blob) || h != hash(blob) {
-			ok = false
-		}
-	}
-	return ok
-}
-
-func mwMemHas(s *Server, c *ssh.Certificate) bool {
-	_, ok := s.certs[hash(mwCertMarshal(c))]
-	return ok
-}
